@@ -44,7 +44,17 @@ def child(case):
                 fn()
                 eng.bump('placed_events_fired')
                 eng.bump(f'placed_at:job:{nm}')
-        loop_.gex.on_submit = on_submit
+        lp = case.get('longpark_lookup')
+
+        def on_submit_lp(job):
+            on_submit(job)
+            nm = job.name.split('.')[-1]
+            if lp and st.get('attacking') and nm in ('lookup_hashXs', 'lookup_utxos', 'deserialize_txs') and eng.rng.random() < lp:
+                # the prevout lookup is held back while the block processor goes on indexing
+                job.longpark = 'job-end' if nm == 'deserialize_txs' else 'start'
+                job.park_secs = eng.rng.choice((6, 11))
+                eng.bump('lookup_jobs_held_back')
+        loop_.gex.on_submit = on_submit_lp
         # a pool with parents, children and grandchildren
         eng.step('add')
         eng.step('add_chain' if case.get('chain') else 'add')
@@ -52,13 +62,27 @@ def child(case):
             eng.inconclusive.append('no synchronised refresh after start')
             return
         await eng.compare_view('start')
+        st['attacking'] = True
         for i, (where, ev) in enumerate(case['attacks']):
             # new arrivals so that the next refresh has something to fetch and look up
             eng.step('add')
             if i % 2:
                 eng.step('add')
             r = eng.refreshes + 1
-            fn = (lambda ev=ev: (eng.step(ev), eng.bump(f'placed:{ev}')))
+            if ev == 'same_height_switch':
+                def fn():
+                    # the daemon moves to an equal-height branch and gets txs spending outputs that exist only there; the
+                    # index cannot follow until the admin forces a reorg (below)
+                    w = eng.world
+                    d = eng.rng.randrange(1, 3)
+                    if w.height() >= 2 * d + 2:
+                        w.switch_to(w.fork(d, d, rng=eng.rng, ntx=3))
+                        for _ in range(3):
+                            w.mempool_add(parent='confirmed')
+                        eng.bump('placed:same_height_switch')
+                        eng.event_log.append('same_height_switch')
+            else:
+                fn = (lambda ev=ev: (eng.step(ev), eng.bump(f'placed:{ev}')))
             if isinstance(where, int):
                 eng.placements[(r, where)] = fn
             else:
@@ -70,7 +94,14 @@ def child(case):
             # un-fired placements are dropped (the refresh had fewer suspension points)
             eng.placements.clear()
             job_place.clear()
-            if i % 2 == 1 or i == len(case['attacks']) - 1:
+            if eng.world.tip.hash != eng.srv.bp.state.tip and eng.world.height() <= eng.srv.bp.state.height:
+                # equal-height branch: let two refreshes see the lagging index, then the admin forces the reorg
+                await eng.srv.wait_until(lambda: eng.refreshes >= r + 3, 60)
+                rpc = eng.srv.client(rpc=True)
+                await rpc.call('reorg', [3], vtimeout=60)
+                await rpc.close()
+                eng.bump('forced_reorgs_after_same_height_switch')
+            if i % 2 == 1 or i == len(case['attacks']) - 1 or ev == 'same_height_switch':
                 if not await eng.wait_synchronised(600):
                     if eng.srv.check_task():
                         return
@@ -116,6 +147,13 @@ def gen_cases(tier, seed):
     for k in (1, 2, 1, 2, 3, 1, 2, 3):
         cases.append({'seed': rng.randrange(1 << 30), 'attacks': [(k, 'mine_parents'), (k, 'mine_parents')], 'txindex': False,
                       'policy': 'random', 'p': 0.3, 'latency': None, 'chain': True, 'prefetch': 100})
+    for k in range(12 if tier == 'quick' else 80):
+        # index advancing between the raw fetch and the prevout lookup of one refresh; same-height branch switches
+        cases.append({'seed': rng.randrange(1 << 30), 'attacks': [(rng.choice((1, 2, 'deserialize_txs')), rng.choice(('mine_all', 'mine_some', 'mine_parents'))),
+                                                                    (rng.choice((0, 1, 2)), 'same_height_switch'),
+                                                                    (rng.choice((1, 2, 'deserialize_txs')), 'mine_some')],
+                      'txindex': k % 2 == 0, 'policy': 'random', 'p': 0.3, 'latency': None, 'chain': k % 3 == 0, 'prefetch': 100,
+                      'longpark_lookup': 0.7, 'reorg_limit': 8})
     n = 112 if tier == 'quick' else 800
     for i in range(n):
         attacks = [(wheres[(i + j) % len(wheres)], EVENTS[(i // 3 + j * 3) % len(EVENTS)]) for j in range(rng.randrange(2, 5))]
@@ -140,6 +178,8 @@ def run(tier, seed, replay=None):
               'placed_at:job:deserialize_txs': 3}
     for ev in EVENTS:
         floors[f'placed:{ev}'] = 5
+    floors['placed:same_height_switch'] = 5
+    floors['lookup_jobs_held_back'] = 20
     for name, minimum in floors.items():
         rep.floor(name, c[name], minimum)
     return rep.finish(
@@ -147,7 +187,9 @@ def run(tier, seed, replay=None):
              'daemon state change (block confirming all / only parents / nothing / a subset, two blocks, reorg, eviction, arrival) is '
              'applied exactly at a chosen suspension point of that refresh - before answering the k-th daemon call (listing, height '
              'check, raw-tx batches) or when the deserialise / prevout-lookup jobs are submitted - under random daemon latency and '
-             'random job interleaving with the block processor; txindex on/off. Monitors: at every loop iteration the pool and its '
+             'random job interleaving with the block processor; txindex on/off; a dozen sequences hold the prevout-lookup jobs back for 6-11 '
+             'virtual seconds (the index advances between raw fetch and lookup) and switch the daemon to an equal-height branch with '
+             'new-branch-only spends before an admin-forced reorg. Monitors: at every loop iteration the pool and its '
              'by-script-hash index are exact inverses and every accepted tx has the true input pairs, output pairs and fee (ground '
              'truth from construction); no server task dies; no exception is logged by the mempool; after the attacks the next quiet '
              'refresh satisfies the exact comparison of C08. thorough enumerates (placement x event type x txindex x policy). '
